@@ -2,7 +2,7 @@
 
 Proof: Props/C10.lean — key_normalisation, one_conn_per_key, in_arrival_order, non_interference, discovery_routing for the
 datagram server's dispatch model.
-Tie: X — getConnKey (hook, read-only) against the model on the address matrix; real loopback UDP, TCP and DTLS servers with
+Tie: X — getConnKey (hook, read-only) against the model on the address matrix; real loopback UDP, TCP, TLS and DTLS servers with
 well-behaved clients and fuzz peers (garbage, truncated, oversize, unsolicited ACK/RST/responses, connect-and-stall, DTLS
 ClientHello-then-silence), discovery with several responders, stray responses and refused duplicate-token calls (the
 observed counts are also compared with the registration model `dtrace`).  Real sockets, real time: a rig problem is never a violation.
@@ -29,6 +29,7 @@ def explore(ctx, art):
         lines.append("serve udp %d %d %d %d" % (rng.randrange(1 << 30), rng.choice([2, 3, 4]), rng.choice([1, 2, 4]), 30 if thorough else 15))
         lines.append("serve tcp %d %d %d %d" % (rng.randrange(1 << 30), rng.choice([2, 3, 4]), rng.choice([1, 2, 4]), 30 if thorough else 15))
         lines.append("serve dtls %d %d %d %d" % (rng.randrange(1 << 30), rng.choice([2, 3]), rng.choice([1, 2, 3]), 20 if thorough else 10))
+        lines.append("serve tls %d %d %d %d" % (rng.randrange(1 << 30), rng.choice([2, 3]), rng.choice([1, 2, 3]), 20 if thorough else 10))
     # one peer's burst of well-formed requests to a slow resource (handler 150 ms) while a second peer asks for a fast one
     lines.append("serve udpbacklog 0 150 40 0")
     lines.append("serve udpbacklog 0 150 8 0")      # below the receive-queue size: the second peer must be served at once
@@ -67,7 +68,7 @@ def explore(ctx, art):
     ctx.cov["distinct_nontrivial"] = len(set(lines))
     ctx.cov["traces_validated_against_impl"] = len(lines) - nkey
     ctx.cov["rule"] = ("peer-table key equality on the full matrix of local address kinds (concrete v4/v6, multicast v4/v6, unspecified v4/v6, empty) x "
-                       "same/different remote; real loopback servers (UDP, TCP, DTLS-PSK with stalled-handshake peers) with 2-4 well-behaved clients exchanging 15-30 request/response pairs "
+                       "same/different remote; real loopback servers (UDP, TCP, TLS with peers that never start/finish the handshake, DTLS-PSK with stalled-handshake peers) with 2-4 well-behaved clients exchanging 15-30 request/response pairs "
                        "while 1-4 adversarial peers send garbage, truncated and oversize messages, unsolicited ACK/RST/responses, reserved token "
                        "lengths, or connect and stall; discovery with 0-5 responders, each also sending a stray response with a foreign token, "
                        "and with a duplicate-token DiscoveryRequest issued (and refused) while the first is still waiting. "
